@@ -596,3 +596,25 @@ M('c18-gather-subset', 'C18', 'TAB-GATHER', 'receive list sized by the data-para
   (GP, "        partitions = [None for _ in range(get_world_size())]", "        partitions = [None for _ in range(get_world_size(self.data_parallel_group))]"))
 M('c18-gather-inv-only', 'C18', 'S1', 'only ranks with layers take part in the gather',
   (GP, "        torch.distributed.all_gather_object(partitions, partition, group=group)\n", "        if partition:\n            torch.distributed.all_gather_object(partitions, partition, group=group)\n"))
+
+# ---------------------------------------------------------------- C03 (typestate, SPMD)
+M('c03-no-flush-after-hooks', 'C03', 'TS-BKT', 'flush after the hooks removed',
+  (BP, "        # Flush last allreduce bucket from forward/backward pass.\n        # Will be a no-op if bucketing was not used\n        self._tdc.flush_allreduce_buckets()\n", ""))
+M('c03-flush-only-on-inv-steps', 'C03', 'TS-BKT', 'flush moved into the inverse branch, trailing flushes dropped (seed C03-1)',
+  (BP, "        # Flush last allreduce bucket from forward/backward pass.\n        # Will be a no-op if bucketing was not used\n        self._tdc.flush_allreduce_buckets()\n\n        # Compute Inverses\n        if self.steps % self.inv_update_steps == 0:\n", "        # Compute Inverses\n        if self.steps % self.inv_update_steps == 0:\n            self._tdc.flush_allreduce_buckets()\n"),
+  (BP, "                )\n        self._tdc.flush_allreduce_buckets()\n\n        scale = None", "                )\n\n        scale = None"))
+M('c03-memory-no-flush', 'C03', 'TS-BKT', 'memory_usage reads factors without flushing',
+  (BP, "        self._tdc.flush_allreduce_buckets()\n        for _, layer in self._layers.values():\n            layer_sizes = layer.memory_usage()", "        for _, layer in self._layers.values():\n            layer_sizes = layer.memory_usage()"))
+M('c03-rank-early-return', 'C03', 'S1', 'non gradient workers skip the gradient phase loop body',
+  (BP, "            if self._assignment.is_grad_worker(name):\n                layer.preconditioned_grad(damping=self.damping)\n            if self._assignment.broadcast_gradients():", "            if self._assignment.is_grad_worker(name):\n                layer.preconditioned_grad(damping=self.damping)\n            elif name.startswith('_'):\n                continue\n            if self._assignment.broadcast_gradients():"))
+M('c03-bcast-grad-workers-only', 'C03', 'S1', 'gradient broadcast entered only by gradient workers',
+  (BP, "            if self._assignment.broadcast_gradients():\n                layer.broadcast_grad(", "            if self._assignment.broadcast_gradients() and self._assignment.is_grad_worker(name):\n                layer.broadcast_grad("))
+M('c03-src-is-me', 'C03', 'S3', 'gradient broadcast rooted at the local rank',
+  (BP, "                    src=self._assignment.src_grad_worker(name),", "                    src=get_rank(),"))
+M('c03-layer-order-by-rank', 'C03', 'S5', 'layer order rotated by the rank',
+  (BP, "        # Compute Preconditioned Gradients\n        for name, layer in reversed(list(self._layers.values())):", "        # Compute Preconditioned Gradients\n        for name, layer in list(self._layers.values())[get_rank() % 2:]:"))
+M('c03-state-dict-barrier', 'C03', 'S8', 'state_dict synchronises',
+  (BP, "        state_dict: dict[str, Any] = {'steps': self.steps}\n", "        state_dict: dict[str, Any] = {'steps': self.steps}\n        torch.distributed.barrier()\n"))
+T('c03-twin-no-trailing-flushes', 'C03', 'the two no-op flushes removed',
+  (BP, "                    )\n            self._tdc.flush_allreduce_buckets()\n\n        # Compute Preconditioned Gradients", "                    )\n\n        # Compute Preconditioned Gradients"),
+  (BP, "                )\n        self._tdc.flush_allreduce_buckets()\n\n        scale = None", "                )\n\n        scale = None"))
